@@ -455,6 +455,11 @@ func classifyRegexFinding(env *gen.Env, set *core.Set, a, b, kind string) string
 		// the reference itself is inconsistent here (see goFoldFactoringQuirk)
 		return "go-regexp-prefix-factoring-ignores-case-flag"
 	}
+	if strings.Contains(a, "[][]") && strings.Contains(b, `\]\[`) {
+		// an explicit rule of the checker, asserted by its own test data: the class `[][]` (one of
+		// `]` and `[`) is re-written as the sequence `\]\[`
+		return "bracket-pair-class-rewritten-as-sequence"
+	}
 	m := minimizeRegex(env, set, a, kind)
 	op := "?"
 	if re, err := rsyntax.NewParser(nil).Parse(m); err == nil {
